@@ -22,6 +22,8 @@ type Scenario struct {
 	Family        string `json:"family"`
 	// Tags are free-form (generator name, origin of the schedule); copied into the reset event.
 	Origin string `json:"origin"`
+
+	slowMax int64
 }
 
 type InstCfg struct {
